@@ -93,7 +93,7 @@ pub fn spec(id: &str) -> Option<PropSpec> {
         "C03" => m("C03", 3, 15000, 300000, &["the gate is switched with the guarded hook H4 (vibesql_types::verif::skip(COLUMNAR)); the hook's hit counter shows how often the gated path was really taken", "probes are single-table COUNT/SUM/AVG/MIN/MAX (also SUM(a*b), SUM(a+k)) with WHERE restricted to what the gate admits, optional HAVING/LIMIT/OFFSET", "results compared bit-exactly including the value variant"], &[]),
         "C05" => m("C05", 5, 10000, 200000, &["'definitional nested evaluation' = all guarded switches H5 set: no join reordering, no hash join (nested loop only), no IN/EXISTS rewrite, no semi-join transform, no index-backed IN fast path, no index scan", "the cross-rendering half (IN/EXISTS/NOT IN/NOT EXISTS, comma-join permutations, INNER JOIN vs cross product + WHERE, derived-table wrapping) is metamorphic generation riding on the same runs", "NOT IN renderings are compared only with the subquery column restricted to non-NULL values and the outer column non-NULL, where the semantics coincide"], &[]),
         "C04" => m("C04", 4, 6000, 100000, &["rayon is replaced by a deterministic single-thread stand-in with rayon's documented semantics (order-preserving collect, stable par_sort_by); per combinator call the stand-in draws the execution order / split tree from a seeded schedule stream", "thresholds are switched per thread through hook H3 (never / always / 7)", "no claim about data races between real threads: the parallel closures contain no unsafe code and capture only shared references"], &["rayon (deterministic stand-in /verif/sim/simrayon)"]),
-        "C32" => m("C32", 32, 8000, 150000, &["views are created in the history and stay while the data changes; every probe family = one outer query over (a) the view, (b) the defining query inlined as a derived table, (c) the defining query as a CTE; all three must agree after every step", "every view exposes two columns a, b; definitions: filtered projection, explicit column list, expression column, GROUP BY aggregate, two-table join, view over view, DISTINCT", "dropping a view that another view depends on is not generated"], &[]),
+        "C32" => m("C32", 32, 2500, 60000, &["views are created in the history and stay while the data changes; every probe family = one outer query over (a) the view, (b) the defining query inlined as a derived table, (c) the defining query as a CTE; all three must agree after every step", "every view exposes two columns a, b; definitions: filtered projection, explicit column list, expression column, GROUP BY aggregate, two-table join, view over view, DISTINCT", "dropping a view that another view depends on is not generated"], &[]),
         "C02" => t("C02", 2, 20000, 400000, &["twin 0 receives every CREATE/DROP INDEX of the history, twin 1 none; a statement rejected by twin 0 (e.g. by a UNIQUE index) is not applied to twin 1, so both stay in the same state", "probes cover a generated SQL subset (single table with all comparison operators/BETWEEN/IN/AND/OR, ORDER BY/LIMIT, DISTINCT, aggregates, GROUP BY, 2-table joins, IN/EXISTS/NOT IN/NOT EXISTS/scalar subqueries, set operations, derived tables)"]),
         "C16" => t("C16", 16, 12000, 200000, &["twin 0 Database::new() (in-memory indexes); twin 1 Database::with_config(memory budget 1..4096 bytes, SpillToDisk); twin 2 disk-backed from CREATE INDEX on (guarded hook H2, the 100000-row threshold is otherwise out of reach); twins 1 and 2 keep their index files on a simulated disk behind the real StorageBackend trait (hook H1)", "same probes as C02; statements must be accepted/rejected alike (unique-index violations)", "transactions are not part of this workload"]),
         "C18" => t("C18", 18, 12000, 200000, &["the restarted twin is saved to a real file under /dev/shm, dropped, and re-created with load_*; the twin that never restarts is the reference", "column types limited to INTEGER and VARCHAR in this scenario (the full persisted type set is exercised by the 'types' sub-scenario)"]),
@@ -140,6 +140,7 @@ fn tweak_for(prop: &str) -> impl Fn(&mut Swarm) {
             sw.w_truncate = sw.w_truncate.min(1);
             sw.domain = sw.domain.max(5).min(16);
             sw.null_pct = sw.null_pct.min(30);
+            sw.w_insert = 14;
         }
         "C13" => {
             sw.with_tx = true;
